@@ -74,3 +74,137 @@ Theorem C18_error_paths_address_null : forall fuel S D opn inputs root or tor d 
   request fuel S D opn inputs root or tor = RDone (Some d) s -> paths_ok (Some d) (st_errs s) = true.
 Proof. exact request_error_paths_null. Qed.
 Print Assumptions C18_error_paths_address_null.
+
+(* ---------------------------------------------------------------------------------------------
+   Syntax errors: "the location falls within the first token (or malformed lexeme) at which the
+   text stops being the beginning of any valid document".
+
+   Model: SynErr/LexErr.v (where lexer.go reports a lexical error), SynErr/ParseErr.v (where
+   parser.go's expect / expectKeyWord / unexpected report: the start of the token the parser is
+   looking at; lazy lexing decides between the two), on top of the C03 models of lexer and parser
+   (Syntax/Lexer.v, Syntax/Parser.v), whose definitions are untouched.  [parse_err src] is the byte
+   offset parser.Parse reports; [parse_err_ext] adds the extent of the offending token / lexeme.
+   --------------------------------------------------------------------------------------------- *)
+From GQL Require Import Syntax.Lexer Syntax.Parser SynErr.LexErr SynErr.ParseErr SynErr.Viable.
+From GQL Require Import Proofs.SynErrWB Proofs.SynErrErase Proofs.SynErrMain Proofs.SynErrViable.
+
+(* The position model rejects exactly what the parser model (C03: sound and complete for the
+   grammar) rejects; it reports a position for every rejected source and for no other. *)
+Theorem C18_syntax_error_iff : forall src, parse src = Err <-> exists off, parse_err src = Some off.
+Proof. exact parse_err_iff. Qed.
+Print Assumptions C18_syntax_error_iff.
+
+Theorem C18_syntax_error_none_iff : forall src, parse_err src = None <-> exists d, parse src = Ok d.
+Proof. exact parse_err_none_iff. Qed.
+Print Assumptions C18_syntax_error_none_iff.
+
+(* Function by function, for every fuel and parser state, the recogniser that carries positions
+   succeeds / fails / runs out of fuel exactly when the parser model does (here: whole documents). *)
+Theorem C18_recogniser_is_parser : forall fuel ts,
+  strip_doc (parse_document fuel ts) = eraseE (parse_documentE fuel ts).
+Proof. exact Er_parse_document. Qed.
+Print Assumptions C18_recogniser_is_parser.
+
+(* (a) The reported offset is the start of a token of the input (possibly its EOF token, i.e.
+   the end of the text after ignored characters), or -- when the lexer reports -- the lexer's
+   position, with the malformed lexeme's first byte as the lower end of the extent. *)
+Theorem C18_syntax_error_at_token_start : forall src off lo hi, parse_err_ext src = Some (off, lo, hi) ->
+  (exists u t r, tokens_of src = u ++ t :: r /\ off = tstart t /\ lo = tstart t /\ hi = N.max (tstart t) (tend t - 1)) \/
+  (exists s, snd (lexE src) = LBad s off /\ lo = s /\ hi = off).
+Proof.
+  intros src off lo hi H. destruct (parse_err_at_token _ _ _ _ H) as [(u & t & r & E & X)|R]; [left|right; exact R].
+  exists u, t, r. unfold tok_ext in X. inversion X; subst. auto.
+Qed.
+Print Assumptions C18_syntax_error_at_token_start.
+
+(* (b) "... at which the text stops being the beginning of any valid document", second half:
+   when the parser reports token t after the tokens u, no source whose token stream begins with
+   u ++ [t] parses -- the verdict depends on the tokens up to and including the reported one only
+   (one-token lookahead, proved for every production) -- and the tokens u never make the parser
+   stop, whatever follows them: every one of them was accepted by a production.  When the lexer
+   reports, the parser had accepted every token in front of the malformed lexeme in this sense. *)
+Theorem C18_syntax_error_no_extension : forall src off lo hi, parse_err_ext src = Some (off, lo, hi) ->
+  (exists u t r, tokens_of src = u ++ t :: r /\ (off, lo, hi) = tok_ext t /\
+     (forall src' rest' mb', lex src' = Ok (u ++ t :: rest', mb') -> parse src' = Err) /\
+     (forall rest' r', parse_tokensE (u ++ rest') = ErrE r' -> (length r' <= length rest')%nat)) \/
+  (exists s, snd (lexE src) = LBad s off /\ lo = s /\ hi = off /\
+     (forall rest' r', parse_tokensE (tokens_of src ++ rest') = ErrE r' -> (length r' <= length rest')%nat)).
+Proof. exact parse_err_position. Qed.
+Print Assumptions C18_syntax_error_no_extension.
+
+(* The same on token lists: a failure at token t is a failure at t whatever follows t. *)
+Theorem C18_syntax_error_prefix_consumed : forall u t rest, parse_tokensE (u ++ t :: rest) = ErrE (t :: rest) ->
+  (forall rest', parse_tokensE (u ++ t :: rest') = ErrE (t :: rest') /\ parse_tokens (u ++ t :: rest') = Err) /\
+  (forall rest' r, parse_tokensE (u ++ rest') = ErrE r -> (length r <= length rest')%nat).
+Proof.
+  intros u t rest H. split.
+  - intro rest'. pose proof (parse_tokensE_local _ _ _ H rest') as X. split; [exact X|].
+    apply parse_tokens_err_iff. eauto.
+  - apply (no_failure_inside u (t :: rest)). intros r0 Hr0. rewrite H in Hr0. inversion Hr0; subst. apply le_n.
+Qed.
+Print Assumptions C18_syntax_error_prefix_consumed.
+
+(* First half ("the text before it is the beginning of a valid document"), established per input
+   by a checked witness: when the viability search (SynErr/Viable.v) returns tokens w for the
+   tokens in front of the reported one, those tokens followed by w are a valid document (by C03:
+   derivable in the grammar), so the reported token is exactly the first one at which the text
+   stops being the beginning of a valid document.  The runner evaluates the search on the cases
+   where it has to tell a wrong location from a merely different one.  That the search succeeds
+   for every prefix the parser accepts is not proved. *)
+Theorem C18_syntax_error_first_nonviable_partial : forall src rp w,
+  parse_report src = Some rp -> r_lexical rp = false -> viable_witness (r_before rp) = Some w ->
+  (exists d, parse_tokens (r_before rp ++ w ++ [weof]) = Ok d) /\
+  exists t r, tokens_of src = r_before rp ++ t :: r /\ r_off rp = tstart t /\
+    parse_err src = Some (tstart t) /\
+    forall src' rest' mb', lex src' = Ok (r_before rp ++ t :: rest', mb') -> parse src' = Err.
+Proof.
+  intros src rp w H NL W. split; [exact (viable_witness_sound _ _ W)|].
+  destruct (parse_report_position _ _ H NL) as (t & r & E & X & NE & _).
+  exists t, r. split; [exact E|]. unfold tok_ext in X. injection X as X1 X2 X3. split; [exact X1|]. split; [|exact NE].
+  destruct (parse_report_spec _ _ H) as [P _]. unfold parse_err. rewrite P, X1. reflexivity.
+Qed.
+Print Assumptions C18_syntax_error_first_nonviable_partial.
+
+(* Both halves, for all inputs, on the value and type sub-grammars (Syntax/Grammar.v DValue, DType):
+   when the recogniser of Value[Const] / Type stops at token t having consumed u, then u is the
+   beginning of a derivable value / type (a completion is constructed in the proof) and nothing
+   derivable begins with u followed by t.  For the other productions the first half is what
+   C18_syntax_error_first_nonviable_partial establishes per input. *)
+From GQL Require Import Syntax.Grammar Proofs.SynErrComplete.
+Theorem C18_value_viable_prefix_partial : forall fuel c u t rest,
+  parse_valueE fuel c (u ++ t :: rest) = ErrE (t :: rest) ->
+  (exists cont v, DValue c (u ++ cont) v) /\ (forall q v, ~ DValue c (u ++ t :: q) v).
+Proof. exact value_viable_prefix. Qed.
+Print Assumptions C18_value_viable_prefix_partial.
+
+Theorem C18_type_viable_prefix_partial : forall fuel u t rest,
+  parse_typeE fuel (u ++ t :: rest) = ErrE (t :: rest) ->
+  (exists cont ty, DType (u ++ cont) ty) /\ (forall q ty, ~ DType (u ++ t :: q) ty).
+Proof. exact type_viable_prefix. Qed.
+Print Assumptions C18_type_viable_prefix_partial.
+
+(* The first half for the executable definitions: whatever the recogniser of an operation, a
+   fragment definition or a selection set (with fields, aliases, arguments, directives, fragment
+   spreads, inline fragments, variable definitions, nested to any depth) had consumed when it
+   stopped at token t begins a derivable one -- the completion is constructed in the proof
+   (Proofs/SynErrLang.v: languages of the recogniser's combinators; Proofs/SynErrViableAll.v).
+   The type-system definitions and the document level are not covered by this theorem. *)
+From GQL Require Import Proofs.SynErrLang Proofs.SynErrViableAll.
+Theorem C18_executable_viable_prefix_partial : forall f,
+  (forall u t rest, parse_operationE f (u ++ t :: rest) = ErrE (t :: rest) -> exists cont o, DOperation (u ++ cont) o) /\
+  (forall u t rest, parse_fragment_definitionE f (u ++ t :: rest) = ErrE (t :: rest) -> exists cont d, DFragment (u ++ cont) d) /\
+  (forall u t rest, parse_selsetE f (u ++ t :: rest) = ErrE (t :: rest) -> exists cont ss, DSelSet (u ++ cont) ss).
+Proof. exact executable_viable_prefix. Qed.
+Print Assumptions C18_executable_viable_prefix_partial.
+
+From Coq Require Import String.
+(* non-vacuity: a parser report, a lexer report, a required non-empty list, and a witness *)
+Example C18_syntax_nonvacuous :
+  parse_err_ext (of_string "{ a(x: 1) }}"%string) = Some (11, 11, 11) /\
+  parse_err_ext (of_string "{ a(x: ""ab"%string) = Some (10, 7, 10) /\
+  parse_err_ext (of_string "{ }"%string) = Some (2, 2, 2) /\
+  match parse_report (of_string "query Q("%string) with
+  | Some rp => andb (negb (r_lexical rp)) (match viable_witness (r_before rp) with Some _ => true | None => false end)
+  | None => false
+  end = true.
+Proof. split; [|split; [|split]]; vm_compute; reflexivity. Qed.
